@@ -23,6 +23,13 @@ for pid,txt in {
 checks["C08"]=dict(level="model_checking",engine="gosim",design="4/C08",
   text="Every server script (26-symbol alphabet incl. regressions, id variants, option/scheme lists, round trips, data, garbage, disconnect, silence; depth 3 quick / 5 thorough) x 4 client configurations is executed against the real ClientChannel.EstablishSession over a virtual connection with real TLS; the call must return without panic, report established only if the server's last word was established and adopt exactly that envelope's id/nodes, echo the latest session id, send credentials only in answer to an authentication request and close on finished/failed.",
   technique=HS_TECH)
+SCHED_TECH="stateless model checking of the rewritten implementation: controlled scheduler, DFS over schedules with iterative deviation (delay) bounding and Mazurkiewicz-trace state pruning, oracle = executable reference model on every execution"
+checks["C05"]=dict(level="model_checking",engine="gosim",design="4/C05",technique=SCHED_TECH,
+  text="2-3 concurrent ProcessCommand callers with colliding ids, a canceller, and a peer answering from every plan (own id, omitted, duplicated, unknown id first, deferred) on a real established channel (in-process and TCP over a virtual pipe); every schedule within the deviation bound; each history is checked against a pending-command-table model (own id only, exactly-once, unmatched to the stream, no stuck caller, id reusable).")
+checks["C04"]=dict(level="model_checking",engine="gosim",design="4/C04",technique=SCHED_TECH,
+  text="Concurrent senders in both directions over real established channels (in-process queue 0/1; TCP over 64B and 64KiB virtual pipes, optionally with injected write stalls), all kind/size workloads as data choices and every schedule within the deviation bound; the delivered multiset must equal the successfully sent one with equal content and per-(sender,kind) order.")
+checks["C13"]=dict(level="model_checking",engine="gosim",design="4/C13",technique=SCHED_TECH,
+  text="An established pair is ended by client finish / server finish / server fail at every moment the bounded scheduler can choose relative to traffic in flight, over the in-process and TCP transports; terminal states, closed streams and receiver-done signals on both sides, closed connections and an empty goroutine census are required on every execution.")
 na_reason={}
 m={"version":1,
  "setup_cmd":"./setup.sh",
